@@ -17,7 +17,7 @@ Spec == Init /\ [][Next]_vars
 \* has an accepted type and no mandatory key is missing
 ClassSound ==
   /\ cl = Class(kind, forms)
-  /\ Class(kind, forms) \in {"Either", "KeyError", "ValueError", "Ctor"}
+  /\ Class(kind, forms) \in {"Either", "KeyError", "ValueError", "CtorOrValueError", "Ctor"}
   /\ Class(kind, forms) = "Ctor" <=> (\A i \in DOMAIN Schema(kind) :
                                          /\ forms[i] = "absent" => Schema(kind)[i].opt
                                          /\ forms[i] # "absent" => forms[i] \in Schema(kind)[i].types)
